@@ -1201,6 +1201,7 @@ type runner struct {
 	mu       sync.Mutex
 	toolErr  error
 	restarts int
+	nocache  bool
 }
 
 func (r *runner) runBatch(vs []Vec) []Result {
@@ -1213,7 +1214,7 @@ func (r *runner) runBatch(vs []Vec) []Result {
 			defer wg.Done()
 			for i := range jobs {
 				r.mu.Lock()
-				if c, ok := r.cache[vs[i].key()]; ok {
+				if c, ok := r.cache[vs[i].key()]; ok && !r.nocache {
 					c.I = vs[i].I
 					out[i] = c
 					r.mu.Unlock()
@@ -1334,8 +1335,32 @@ func (r *runner) minimise(t *Table, results []Result) {
 			}
 		}
 		if !found {
-			res.Sig = []string{sigOf(v, dev)}
+			// no sub-vector reproduces it: is the vector itself reproducible?
+			r.nocache = true
+			again := r.runBatch([]Vec{v, v, v})
+			r.nocache = false
+			repro := false
+			for _, x := range again {
+				if clauseOf(x) == cl {
+					repro = true
+				}
+			}
 			res.Min = []Vec{v}
+			if repro {
+				res.Sig = []string{sigOf(v, dev)}
+			} else {
+				// timing dependent (e.g. a stream whose first message is rejected while the
+				// sender goroutine already works): structural signature = RPC + what changed
+				what := ""
+				if cl == "error-changed-state" {
+					var tabs []string
+					for _, part := range strings.Split(strings.SplitN(res.Diff, " ", 2)[0], ",") {
+						tabs = append(tabs, strings.SplitN(part, ":", 2)[0])
+					}
+					what = ":" + strings.Join(tabs, "+")
+				}
+				res.Sig = []string{v.RPC + ".~timing-dependent" + what}
+			}
 		}
 	}
 }
